@@ -1,6 +1,6 @@
 """C10 - WTinyLFUCache: window -> TinyLFU admission filter -> segmented main cache."""
 from .lib import api, ntrun, composite, lin
-from .lib.routing import View, cond_facts, SELF
+from .lib.routing import View, cond_facts, norm_cmp, SELF
 from .lib.absint import fmt_val, subterms
 from .lib.nt import payload_field
 from .lib.effects import loc_root
@@ -60,11 +60,14 @@ def put(cx, chk, cfg, F):
             # demotion
             full = None
             for c, t, e in facts:
-                if e["depth"] != 0 or not (isinstance(c, tuple) and c[0] == "bin" and c[1] in ("Ge", "Lt")):
+                if e["depth"] != 0:
                     continue
-                if isinstance(c[2], tuple) and c[2][0] == "len" and ("len", c[2][1], 0) == lenof(PT) \
-                        and c[3] in (("load", ("H", SELF, ("slru", "protected_size")), 0), ("load", ("H", SELF, ("slru", "protected", "cap")), 0)):
-                    full = (c[1] == "Ge") == t
+                r = norm_cmp(c, t, lambda x: isinstance(x, tuple) and x[0] == "len" and ("len", x[1], 0) == lenof(PT))
+                if r and r[2] in (("load", ("H", SELF, ("slru", "protected_size")), 0), ("load", ("H", SELF, ("slru", "protected", "cap")), 0)):
+                    if r[0] in ("Ge", "Lt"):
+                        full = r[0] == "Ge"
+                    else:
+                        bad("C10.R1", "window-hit-test-relation", "protected.len() is compared with protected_cap using `%s` (the policy demotes iff len >= cap)" % r[0])
             dem = [x for x in v.of("unindex", lst=PT) if x[3] != v.key_hits.get(PT)]
             if full is None:
                 bad("C10.R1", "window-hit-no-test", "a window hit does not test protected.len() >= protected_cap before placing the key in protected")
@@ -175,16 +178,19 @@ def main_full(facts):
     """True/False from the fact  protected.len() + probationary.len() < protected_size + probationary_size  (any operand order)"""
     want_l = {lenof(PT), lenof(PB)}
     want_r = {("load", ("H", SELF, ("slru", "protected_size")), 0), ("load", ("H", SELF, ("slru", "probationary_size")), 0)}
+    FL = {"Lt": "Gt", "Gt": "Lt", "Le": "Ge", "Ge": "Le"}
     for c, t, e in facts:
-        if not (isinstance(c, tuple) and c[0] == "bin" and c[1] in ("Lt", "Ge")):
+        if not (isinstance(c, tuple) and c[0] == "bin" and c[1] in FL):
             continue
-        l, r = c[2], c[3]
-        if isinstance(l, tuple) and l[:2] == ("bin", "Add") and isinstance(r, tuple) and r[:2] == ("bin", "Add"):
-            ls = set(("len", x[1], 0) if isinstance(x, tuple) and x[0] == "len" else x for x in (l[2], l[3]))
-            rs = {r[2], r[3]}
-            if ls == want_l and rs == want_r:
-                has_room = (c[1] == "Lt") == t
-                return not has_room
+        for l, r, op in ((c[2], c[3], c[1]), (c[3], c[2], FL[c[1]])):
+            if isinstance(l, tuple) and l[:2] == ("bin", "Add") and isinstance(r, tuple) and r[:2] == ("bin", "Add"):
+                ls = set(("len", x[1], 0) if isinstance(x, tuple) and x[0] == "len" else x for x in (l[2], l[3]))
+                rs = {r[2], r[3]}
+                if ls == want_l and rs == want_r:
+                    if not t:
+                        op = {"Lt": "Ge", "Ge": "Lt", "Gt": "Le", "Le": "Gt"}[op]
+                    if op in ("Lt", "Ge"):
+                        return op == "Ge"
     return None
 
 
